@@ -143,12 +143,20 @@ func TestC18RTOBounds(t *testing.T) {
 		cfg := drawHostileCfg(rt)
 		nops := rapid.IntRange(1, 150).Draw(rt, "nops")
 		var obs hostileObs
+		retuned := 0
 		rapid.SyncTest(rt, func(rt *rapid.T) {
 			h := newHostileRun(cfg)
 			lo := uint32(minRTO(cfg.EP))
+			// NoDelay may be called again in mid-connection: the floor in force is
+			// that of the last call, from the next RTT sample on (the call itself
+			// does not touch the current RTO)
+			pendingLo := lo
 			last := h.k.VerifState(false).RxRto
 			h.after = func(h *hostileRun, what string) error {
 				st := h.k.VerifState(false)
+				if st.RxRto != last && pendingLo != lo {
+					lo = pendingLo
+				}
 				if st.RxRto < lo || st.RxRto > 60000 {
 					return fmt.Errorf("retransmission timeout is %d ms, outside [%d, 60000] (srtt=%d rttvar=%d)", st.RxRto, lo, st.RxSrtt, st.RxRttvar)
 				}
@@ -159,11 +167,23 @@ func TestC18RTOBounds(t *testing.T) {
 				return nil
 			}
 			for i := 0; i < nops && h.err == nil; i++ {
+				if rapid.IntRange(0, 11).Draw(rt, "renodelay") == 0 {
+					nd := rapid.IntRange(-1, 2).Draw(rt, "nd")
+					h.k.NoDelay(nd, rapid.SampledFrom([]int{-1, 10, 100}).Draw(rt, "ndIv"), rapid.IntRange(-1, 2).Draw(rt, "ndRs"), rapid.IntRange(-1, 1).Draw(rt, "ndNc"))
+					switch {
+					case nd == 0:
+						pendingLo = 100
+					case nd > 0:
+						pendingLo = 30
+					}
+					lo = min(lo, pendingLo)
+					retuned++
+				}
 				h.step(rt)
 			}
 			obs = h.obs
 			if h.err != nil {
-				rt.Fatalf("C18 RTO bound: %v\nconfig: %+v", h.err, cfg)
+				rt.Fatalf("C18 RTO bound: %v (floor in force %d ms after %d NoDelay call(s) in mid-connection)\nconfig: %+v", h.err, lo, retuned, cfg)
 			}
 		})
 		cl := []string{"rto_cases"}
@@ -172,6 +192,9 @@ func TestC18RTOBounds(t *testing.T) {
 		}
 		if obs.rtoMoved > 3 {
 			cl = append(cl, "rto_moved_gt3")
+		}
+		if retuned > 0 {
+			cl = append(cl, "nodelay_called_again_in_mid_connection")
 		}
 		rec.Case(hx.Hash64(cfg, nops, obs), obs.rtoMoved > 0, cl...)
 		if rec.WantSample() {
